@@ -637,11 +637,34 @@ func (c01) Run(sc core.Scenario) core.Result {
 		return r.Result()
 	}
 	defer closer()
+	// a second pair in the same process WITHOUT the custom encoder/decoder: Enc travels as plain JSON there;
+	// configuration of one client/server must not leak into another
+	cat2 := &Cat{next: map[string]catNext{}}
+	env2 := NewEnv(EnvOpt{NoProxy: true, NoSvc: true, ServerOpts: []jsonrpc.ServerOption{jsonrpc.WithServerMethodNameFormatter(fm.f)}})
+	defer env2.Shutdown()
+	env2.RPC.Register("Cat", cat2)
+	cli2 := reflect.New(ctype)
+	var closer2 jsonrpc.ClientCloser
+	if tr == "custom" {
+		closer2, err = jsonrpc.NewCustomClient("Cat", []interface{}{cli2.Interface()}, customDo(env2.RPC), jsonrpc.WithMethodNameFormatter(fm.f))
+	} else {
+		closer2, err = jsonrpc.NewMergeClient(context.Background(), env2.Addr(tr), "Cat", []interface{}{cli2.Interface()}, nil, jsonrpc.WithMethodNameFormatter(fm.f))
+	}
+	if err != nil {
+		r.Inconclusive("client: %v", err)
+		return r.Result()
+	}
+	defer closer2()
 	rng := sc.Rand()
 	var lastSample interface{}
 	for i := 0; i < sc.I("calls"); i++ {
 		mi := rng.Intn(len(methods))
 		m := methods[mi]
+		usePlain := i%4 == 3
+		cat, cli := cat, cli
+		if usePlain {
+			cat, cli = cat2, cli2
+		}
 		g := &genr{rng: rng}
 		ft := ctype.Field(mi).Type
 		var args []reflect.Value
@@ -665,7 +688,7 @@ func (c01) Run(sc core.Scenario) core.Result {
 			}
 			v := g.gen(pt, 0)
 			args = append(args, v)
-			if pt == encT {
+			if pt == encT && !usePlain {
 				e, derr := decEnc(encEnc(v.Interface().(Enc)))
 				if derr != nil {
 					r.Inconclusive("harness codec failed: %v", derr)
@@ -712,6 +735,9 @@ func (c01) Run(sc core.Scenario) core.Result {
 
 		recs := cat.take()
 		label := fmt.Sprintf("%s/%s %s(%s)", tr, fm.name, m.Name, core.Trunc(strings.Join(expArgs, ", "), 300))
+		if usePlain {
+			label = "[plain pair, no custom codec] " + label
+		}
 		if len(recs) != 1 || recs[0].method != m.Name {
 			var ran []string
 			for _, x := range recs {
